@@ -630,16 +630,16 @@ func opStrings(ops []c20Op) []string {
 // ---------- running the command ----------
 
 type cliRun struct {
-	Exit    int
-	Killed  bool
-	Stdout  []byte
-	Stderr  []byte
-	Calls   []*sysCall
-	Ops     []c20Op   // normalised, not coalesced
-	Points  []*sysCall // every call that refers to the scratch tree, in order (kill points)
-	Notes   []string
-	Tree    cliTree
-	Dirs    []string
+	Exit   int
+	Killed bool
+	Stdout []byte
+	Stderr []byte
+	Calls  []*sysCall
+	Ops    []c20Op    // normalised, not coalesced
+	Points []*sysCall // every call that refers to the scratch tree, in order (kill points)
+	Notes  []string
+	Tree   cliTree
+	Dirs   []string
 }
 
 // runCLI materialises the tree in a fresh scratch directory, runs the command there (under strace unless
@@ -1064,11 +1064,50 @@ type c20Pending struct {
 }
 
 type c20Runner struct {
-	c     *Ctx
-	bin   string
-	lines []string
-	pend  []c20Pending
-	mOps  map[string][]string // scenario name → model ops per task (filled in the second phase)
+	c          *Ctx
+	bin        string
+	lines      []string
+	pend       []c20Pending
+	nDiff      map[string]int
+	suppressed int
+	gaps       int
+}
+
+// addDiff records a model/implementation difference, at most two per kind of difference and sixteen in all, so
+// that the report (capped) keeps room for failing inputs of the property itself.
+func (r *c20Runner) addDiff(f h.Finding) {
+	if r.nDiff == nil {
+		r.nDiff = map[string]int{}
+	}
+	k := f.What
+	if len(k) > 36 {
+		k = k[:36]
+	}
+	r.nDiff[k]++
+	r.nDiff[""]++
+	if r.nDiff[k] > 2 || r.nDiff[""] > 16 {
+		r.c.R.ExcludedKnown += 0
+		r.suppressed++
+		return
+	}
+	r.c.R.Add(f)
+}
+
+// addFail records a failing input of the property, at most three per kind of failure.
+func (r *c20Runner) addFail(f h.Finding) {
+	if r.nDiff == nil {
+		r.nDiff = map[string]int{}
+	}
+	k := "fail:" + f.What
+	if len(k) > 60 {
+		k = k[:60]
+	}
+	r.nDiff[k]++
+	if r.nDiff[k] > 3 {
+		r.suppressed++
+		return
+	}
+	r.c.R.Add(f)
 }
 
 func (r *c20Runner) ask(line string, p c20Pending) {
@@ -1110,16 +1149,16 @@ func (r *c20Runner) reference(st *h.Stage, sc *c20Scenario, run *cliRun) (*cliRu
 		return run, nil
 	}
 	for _, n := range run.Notes {
-		c.R.Add(h.Finding{Stage: st.Name, Kind: "diff", What: "unexpected failing system call: " + n, Input: key, Config: treeStr(sc.Tree)})
+		r.addDiff(h.Finding{Stage: st.Name, Kind: "diff", What: "unexpected failing system call: " + n, Input: key, Config: treeStr(sc.Tree)})
 	}
 	for _, o := range run.Ops {
 		if o.Kind == "other" {
-			c.R.Add(h.Finding{Stage: st.Name, Kind: "diff", What: "system call outside the model's op alphabet: " + o.A, Input: key, Impl: o.Call.Raw})
+			r.addDiff(h.Finding{Stage: st.Name, Kind: "diff", What: "system call outside the model's op alphabet: " + o.A, Input: key, Impl: o.Call.Raw})
 		}
 	}
 	// the property on the final state, and "no other file modified"
 	if ok, why := c20SafeInv(sc.orig(), run.Tree, run.Tree, sc.inputs(), sc.dsts()); !ok {
-		c.R.Add(h.Finding{Stage: st.Name, Kind: "fail", What: "after the complete run: " + why, Input: key, Config: "tree before: " + treeStr(sc.Tree), Impl: "tree after: " + treeStr(run.Tree)})
+		r.addFail(h.Finding{Stage: st.Name, Kind: "fail", What: "after the complete run: " + why, Input: key, Config: "tree before: " + treeStr(sc.Tree), Impl: "tree after: " + treeStr(run.Tree)})
 	}
 	if !sc.Lexical {
 		return run, nil
@@ -1131,7 +1170,6 @@ func (r *c20Runner) reference(st *h.Stage, sc *c20Scenario, run *cliRun) (*cliRu
 
 // compareWithModel issues the vdrv requests for one reference run (answers are checked in flush()).
 func (r *c20Runner) compareWithModel(st *h.Stage, sc *c20Scenario, run *cliRun, key string) {
-	c := r.c
 	tree := sc.Tree.clone()
 	dirSet := map[string]bool{}
 	for _, d := range sc.Tree.dirs() {
@@ -1182,7 +1220,7 @@ func (r *c20Runner) compareWithModel(st *h.Stage, sc *c20Scenario, run *cliRun, 
 		perTask[i] = append(perTask[i], o.String())
 	}
 	for _, u := range unowned {
-		c.R.Add(h.Finding{Stage: st.Name, Kind: "diff", What: "system call on a path that belongs to no task: " + u, Input: key})
+		r.addDiff(h.Finding{Stage: st.Name, Kind: "diff", What: "system call on a path that belongs to no task: " + u, Input: key})
 	}
 	var seqWant []string
 	seqWant = append(seqWant, topMk...)
@@ -1234,6 +1272,8 @@ func (r *c20Runner) compareWithModel(st *h.Stage, sc *c20Scenario, run *cliRun, 
 		}
 		r.ask(c20Req("model.c20.ops", tree, dirs, t, sc.Preserve, sc.Stdin, wok, chunks),
 			c20Pending{kind: "ops", sc: sc, key: key, cfg: cfg, want: strings.Join(perTask[i], "\n"), what: fmt.Sprint(i)})
+		r.ask(c20Req("model.c20.enabled", tree, dirs, t, sc.Preserve, sc.Stdin, wok, chunks),
+			c20Pending{kind: "enabled", sc: sc, key: key, cfg: cfg})
 		// advance the Go-side expectation of the tree (independent of the model): dst gets outB, .bak disappears
 		next := tree.clone()
 		if !noop && t.Dst != "" {
@@ -1263,7 +1303,7 @@ func (r *c20Runner) compareWithModel(st *h.Stage, sc *c20Scenario, run *cliRun, 
 	}
 	// Go-side oracle of the final tree (independent of the model): every destination holds the library output
 	if ok, why := treeEq(tree, run.Tree); !ok {
-		c.R.Add(h.Finding{Stage: st.Name, Kind: "fail", What: "final tree is not 'every destination holds the library output, nothing else changed': " + why,
+		r.addDiff(h.Finding{Stage: st.Name, Kind: "diff", What: "final tree is not 'every destination holds the library output, nothing else changed' (Go oracle): " + why,
 			Input: key, Config: "tree before: " + treeStr(sc.Tree), Impl: "tree after: " + treeStr(run.Tree)})
 	}
 	wantExit := 0
@@ -1271,7 +1311,7 @@ func (r *c20Runner) compareWithModel(st *h.Stage, sc *c20Scenario, run *cliRun, 
 		wantExit = 1
 	}
 	if run.Exit != wantExit {
-		c.R.Add(h.Finding{Stage: st.Name, Kind: "diff", What: fmt.Sprintf("exit status %d, expected %d", run.Exit, wantExit), Input: key, Impl: string(run.Stderr)})
+		r.addDiff(h.Finding{Stage: st.Name, Kind: "diff", What: fmt.Sprintf("exit status %d, expected %d", run.Exit, wantExit), Input: key, Impl: string(run.Stderr)})
 	}
 	// mkdir calls: exactly the missing directories, each before the first open below it
 	sort.Strings(realMk)
@@ -1286,7 +1326,6 @@ func (r *c20Runner) compareWithModel(st *h.Stage, sc *c20Scenario, run *cliRun, 
 
 // flush evaluates the queued model requests and compares.
 func (r *c20Runner) flush(stage string) error {
-	c := r.c
 	rep, err := evalSharded(r.lines)
 	if err != nil {
 		return err
@@ -1306,22 +1345,22 @@ func (r *c20Runner) flush(stage string) error {
 	for i, p := range r.pend {
 		b, ok, msg := h.DecodeReply(rep[i])
 		if !ok {
-			c.R.Add(h.Finding{Stage: stage, Kind: "diff", What: "model error: " + msg, Input: p.key, Config: p.cfg})
+			r.addDiff(h.Finding{Stage: stage, Kind: "diff", What: "model error: " + msg, Input: p.key, Config: p.cfg})
 			continue
 		}
 		switch p.kind {
 		case "plan":
 			items := h.DecodeListReply(b)
 			if len(items) != 3 {
-				c.R.Add(h.Finding{Stage: stage, Kind: "diff", What: "bad plan reply", Input: p.key, Config: p.cfg})
+				r.addDiff(h.Finding{Stage: stage, Kind: "diff", What: "bad plan reply", Input: p.key, Config: p.cfg})
 				continue
 			}
 			w := strings.SplitN(p.want, "\x00", 2)
 			if string(items[0]) != w[0] {
-				c.R.Add(h.Finding{Stage: stage, Kind: "diff", What: "bytes read by the task (inputBytes)", Input: p.key, Config: p.cfg, Impl: h.Q(clip([]byte(w[0]))), Model: h.Q(clip(items[0]))})
+				r.addDiff(h.Finding{Stage: stage, Kind: "diff", What: "bytes read by the task (inputBytes)", Input: p.key, Config: p.cfg, Impl: h.Q(clip([]byte(w[0]))), Model: h.Q(clip(items[0]))})
 			}
 			if string(items[1]) != w[1] {
-				c.R.Add(h.Finding{Stage: stage, Kind: "diff", What: "bytes written by the task (outBytes)", Input: p.key, Config: p.cfg, Impl: h.Q(clip([]byte(w[1]))), Model: h.Q(clip(items[1]))})
+				r.addDiff(h.Finding{Stage: stage, Kind: "diff", What: "bytes written by the task (outBytes)", Input: p.key, Config: p.cfg, Impl: h.Q(clip([]byte(w[1]))), Model: h.Q(clip(items[1]))})
 			}
 		case "ops":
 			items := h.DecodeListReply(b)
@@ -1361,13 +1400,17 @@ func (r *c20Runner) flush(stage string) error {
 			}
 			get(p.sc).ops = append(get(p.sc).ops, items2strings(items))
 			if strings.Join(ms2, "\n") != p.want {
-				c.R.Add(h.Finding{Stage: stage, Kind: "diff", What: "system-call sequence of task " + p.what + " differs from minifyOps", Input: p.key, Config: p.cfg,
+				r.addDiff(h.Finding{Stage: stage, Kind: "diff", What: "system-call sequence of task " + p.what + " differs from minifyOps", Input: p.key, Config: p.cfg,
 					Impl: strings.ReplaceAll(p.want, "\n", "; "), Model: strings.Join(ms2, "; ")})
+			}
+		case "enabled":
+			if string(b) != "ok" {
+				r.addDiff(h.Finding{Stage: stage, Kind: "diff", What: "model: a precondition fails along minifyOps (success path inconsistent) at op " + string(b), Input: p.key, Config: p.cfg})
 			}
 		case "run":
 			mt := decodeTree(b)
 			if ok, why := treeEq(p.wantT, mt); !ok {
-				c.R.Add(h.Finding{Stage: stage, Kind: "diff", What: "tree after the task differs from `run (minifyOps …)`: " + why, Input: p.key, Config: p.cfg,
+				r.addDiff(h.Finding{Stage: stage, Kind: "diff", What: "tree after the task differs from `run (minifyOps …)`: " + why, Input: p.key, Config: p.cfg,
 					Impl: treeStr(p.wantT), Model: treeStr(mt)})
 			}
 		case "mkdirs":
@@ -1387,7 +1430,7 @@ func (r *c20Runner) flush(stage string) error {
 			ws = append(ws, get(p.sc).dirAttr...)
 			sort.Strings(ws)
 			if strings.Join(ws, "\n") != p.want {
-				c.R.Add(h.Finding{Stage: stage, Kind: "diff", What: "directories created and directory attributes set", Input: p.key, Impl: strings.ReplaceAll(p.want, "\n", "; "), Model: strings.Join(ws, "; ")})
+				r.addDiff(h.Finding{Stage: stage, Kind: "diff", What: "directories created and directory attributes set", Input: p.key, Impl: strings.ReplaceAll(p.want, "\n", "; "), Model: strings.Join(ws, "; ")})
 			}
 		case "seq":
 			var all []string
@@ -1429,18 +1472,18 @@ func (r *c20Runner) flush(stage string) error {
 			}
 			got := strings.Join(opStrings(coalesce(ops)), "\n")
 			if got != p.want {
-				c.R.Add(h.Finding{Stage: stage, Kind: "diff", What: "global system-call order of the sequential run", Input: p.key,
+				r.addDiff(h.Finding{Stage: stage, Kind: "diff", What: "global system-call order of the sequential run", Input: p.key,
 					Impl: strings.ReplaceAll(p.want, "\n", "; "), Model: strings.ReplaceAll(got, "\n", "; ")})
 			}
 		case "exec":
 			mt := decodeTree(b)
 			if ok, why := treeEq(p.wantT, mt); !ok {
-				c.R.Add(h.Finding{Stage: stage, Kind: "diff", What: "directory after the kill differs from the model's semantics of the completed system calls (" + p.what + "): " + why,
+				r.addDiff(h.Finding{Stage: stage, Kind: "diff", What: "directory after the kill differs from the model's semantics of the completed system calls (" + p.what + "): " + why,
 					Input: p.key, Config: p.cfg, Impl: treeStr(p.wantT), Model: treeStr(mt)})
 			}
 		case "safe":
 			if string(b) != p.want {
-				c.R.Add(h.Finding{Stage: stage, Kind: "diff", What: "spec.c20.safeinv disagrees with the Go evaluation of SafeInv (" + p.what + ")", Input: p.key, Config: p.cfg, Impl: p.want, Model: string(b)})
+				r.addDiff(h.Finding{Stage: stage, Kind: "diff", What: "spec.c20.safeinv disagrees with the Go evaluation of SafeInv (" + p.what + ")", Input: p.key, Config: p.cfg, Impl: p.want, Model: string(b)})
 			}
 		}
 	}
@@ -1564,7 +1607,7 @@ func (r *c20Runner) killSweep(st *h.Stage, sc *c20Scenario, ref *cliRun, contrac
 		ok, why := c20SafeInv(sc.orig(), run.Tree, final, sc.inputs(), sc.dsts())
 		replay := fmt.Sprintf("cd <fresh copy of the tree> && strace -f -e trace=%s -e inject=%s minify %s", c20Trace, strings.Join(inj, " -e inject="), strings.Join(sc.Args, " "))
 		if !ok {
-			c.R.Add(h.Finding{Stage: st.Name, Kind: "fail", What: "SafeInv violated after kill: " + why, Input: key,
+			r.addFail(h.Finding{Stage: st.Name, Kind: "fail", What: "SafeInv violated after kill: " + why, Input: key,
 				Config: "replay: " + replay + " | tree before: " + treeStr(sc.Tree), Impl: "tree after kill: " + treeStr(run.Tree)})
 		}
 		// files that take no part must be untouched at every crash point
@@ -1578,7 +1621,7 @@ func (r *c20Runner) killSweep(st *h.Stage, sc *c20Scenario, ref *cliRun, contrac
 		for p, v := range sc.Tree {
 			if !part[p] {
 				if w, ok := run.Tree[p]; !ok || !bytes.Equal(v, w) {
-					c.R.Add(h.Finding{Stage: st.Name, Kind: "fail", What: "a file that is neither destination nor backup changed: " + p, Input: key, Config: "replay: " + replay, Impl: treeStr(run.Tree)})
+					r.addFail(h.Finding{Stage: st.Name, Kind: "fail", What: "a file that is neither destination nor backup changed: " + p, Input: key, Config: "replay: " + replay, Impl: treeStr(run.Tree)})
 				}
 			}
 		}
@@ -1601,7 +1644,7 @@ func (r *c20Runner) killSweep(st *h.Stage, sc *c20Scenario, ref *cliRun, contrac
 			// that prefix must give the directory that is really there
 			got := opStrings(run.Ops)
 			if len(got) > len(refStr) || strings.Join(got, "\n") != strings.Join(refStr[:len(got)], "\n") {
-				c.R.Add(h.Finding{Stage: st.Name, Kind: "diff", What: "killed run is not a prefix of the reference run", Input: key, Impl: strings.Join(got, "; "), Model: strings.Join(refStr, "; ")})
+				r.addDiff(h.Finding{Stage: st.Name, Kind: "diff", What: "killed run is not a prefix of the reference run", Input: key, Impl: strings.Join(got, "; "), Model: strings.Join(refStr, "; ")})
 			}
 			var gs [][][]byte
 			off := map[string]int64{}
@@ -1725,7 +1768,10 @@ func (r *c20Runner) killSweep(st *h.Stage, sc *c20Scenario, ref *cliRun, contrac
 		}
 		if missing > 0 {
 			st.Tag(fmt.Sprintf("uncovered-states=%d", missing))
-			c.R.Note("%s: %d of %d system-call boundaries (directory states) were not hit by the kill sweep: %v", sc.Name, missing, total, which)
+			r.gaps++
+			if r.gaps <= 8 {
+				c.R.Note("%s: %d of %d system-call boundaries (directory states) were not hit by the kill sweep: %v", sc.Name, missing, total, which)
+			}
 		} else {
 			st.Tag("all-directory-states-hit")
 		}
@@ -1778,7 +1824,7 @@ func (r *c20Runner) asyncKills(st *h.Stage, sc *c20Scenario, final cliTree, n in
 			st.Tag("partial-destination")
 		}
 		if ok, why := c20SafeInv(sc.Tree, cur, final, sc.inputs(), sc.dsts()); !ok {
-			c.R.Add(h.Finding{Stage: st.Name, Kind: "fail", What: "SafeInv violated after asynchronous kill: " + why, Input: key, Config: "tree before: " + treeStr(sc.Tree), Impl: "tree after kill: " + treeStr(cur)})
+			r.addFail(h.Finding{Stage: st.Name, Kind: "fail", What: "SafeInv violated after asynchronous kill: " + why, Input: key, Config: "tree before: " + treeStr(sc.Tree), Impl: "tree after kill: " + treeStr(cur)})
 		}
 		os.RemoveAll(dir)
 	}
@@ -1838,8 +1884,7 @@ func init() {
 					}
 				}
 				if ord == 0 {
-					rerrs[i] = fmt.Errorf("%s: no write found in the dry run", sc.Name)
-					return
+					ord = 1 // no write to the destination at all: the comparison with the model will say so
 				}
 				sc.Inject = []string{fmt.Sprintf("write:error=ENOSPC:when=%d+", ord)}
 			}
@@ -1919,6 +1964,13 @@ func init() {
 				return err
 			}
 			st3.End()
+		}
+
+		if r.gaps > 8 {
+			c.R.Note("%d sweeps in all left some directory state unvisited (strace counts per thread)", r.gaps)
+		}
+		if r.suppressed > 0 {
+			c.R.Note("%d further model/implementation differences of kinds already reported were not listed", r.suppressed)
 		}
 
 		// ---- known findings ----
